@@ -40,7 +40,9 @@ type Env struct {
 
 	rec        *recorder
 	nListeners int
-	pendFault  int // armed by `fault`, becomes active at the start of the next op; -1 = none
+	bad        bool            // the op being executed turned out to be malformed
+	pendFault  int             // armed by `fault`, active during the next module op; -1 = none
+	pendHooks  map[string]bool // armed by `failhook` ("<HookName>/<idx>"), active during the next module op
 
 	users     []sdk.AccAddress
 	userStrs  []string
@@ -104,6 +106,7 @@ func (e *Env) Reset() error {
 	e.rec = newRecorder(e)
 	e.nListeners = 0
 	e.pendFault = -1
+	e.pendHooks = map[string]bool{}
 
 	e.authority = authtypes.NewModuleAddress(govtypes.ModuleName).String()
 	e.poolAddr = authtypes.NewModuleAddress(distrtypes.ModuleName)
